@@ -66,4 +66,18 @@ theorem updateState_tr_syn (f : Flow) (p : Pkt) (hs : f.state = .unknown) (h1 : 
   unfold Flow.updateState
   simp [hs, h1, h2, h3]
 
+theorem processPacket_none (f : Flow) (p : Pkt) (h : p.payload = none) : f.processPacket p = (f.pre p, none, false) := by
+  unfold Flow.processPacket
+  simp only [h]
+  split <;> rfl
+
+theorem processPacket_some (f : Flow) (p : Pkt) (d : Bytes) (hi : (f.pre p).ignoreData = false) (h : p.payload = some d) :
+    f.processPacket p =
+      ({ f.pre p with tr := (processPayload (f.pre p).tr p.dataSeq d).1 },
+       (if seqCompare (wrap32 (p.dataSeq + d.length)) (f.pre p).tr.seq < 0 ∨ seqCompare p.dataSeq (f.pre p).tr.seq > 0
+         then some (p.dataSeq, d) else none),
+       (processPayload (f.pre p).tr p.dataSeq d).2) := by
+  unfold Flow.processPacket
+  simp only [h, hi, Bool.false_eq_true, if_false]
+
 end Tins.SF
